@@ -2,7 +2,10 @@
 //!   harness <subcommand> [--seed N] [--tier quick|thorough] [--out FILE]
 //! Every subcommand writes one JSON object per line: a correspondence case (see util::Case)
 //! or a witness result.
+mod archive;
+mod cli;
 mod enc;
+mod repair;
 mod util;
 mod writer;
 
@@ -35,6 +38,7 @@ fn main() {
             let only = arg(&args, "--only");
             let mut all = enc::witnesses();
             all.extend(writer::witnesses());
+            all.extend(repair::witnesses());
             for (name, prop, f) in all {
                 if let Some(o) = &only {
                     if o != name && o != prop {
@@ -46,6 +50,10 @@ fn main() {
             }
         }
         "c09" => writer::c09_cases(&mut rng, &tier, &mut out),
+        "c01" => archive::c01_cases(&mut rng, &tier, &mut out),
+        "c16" => cli::c16_cases(&mut rng, &tier, &mut out),
+        "c02" => repair::c02_cases(&mut rng, &tier, &mut out),
+        "c05" => repair::c05_cases(&mut rng, &tier, &mut out),
         #[cfg(feature = "scaled")]
         "c11-enc" => enc::c11_enc_cases(&mut rng, &tier, &mut out),
         other => {
